@@ -362,6 +362,34 @@ func checkC13(c *Ctx) {
 		}
 	}
 
+	// ---- C13-PEEKEND: inside the parser routines, the end of the available tokens is not a token. Every direct
+	// look-ahead of the lexer either tests what it got for TokenEnd (and then runs the more-input protocol), or is
+	// taken only at nesting depth 0. A look-ahead that compares the token with some other type only (is it a
+	// backslash? is it the closing paren?) reads "the rest has not arrived yet" as "no".
+	if peek != nil && typF != nil && tokenEnd >= 0 {
+		nPeek := 0
+		for _, g := range c.zygoFuncs() {
+			if g.Parent() != nil || !isMethodOf(g, parserT) {
+				continue
+			}
+			for _, site := range callsOf(g, peek) {
+				nPeek++
+				if atDepthZeroSite(site) {
+					c.ok("C13-PEEKEND", fnName(g), "direct look-ahead tested for the end of input", site.Pos(), "taken only at nesting depth 0")
+					continue
+				}
+				v, _ := site.(ssa.Value)
+				tested := v != nil && tokenComparedWith(v, typF, tokenEnd)
+				c.check(tested, "C13-PEEKEND", fnName(g), "direct look-ahead tested for the end of input", site.Pos(),
+					"the token this look-ahead returns is compared with TokenEnd",
+					"a direct look-ahead of the lexer inside an open construct is never compared with TokenEnd: when the rest of the construct has not arrived yet (the text comes in pieces) the end marker is taken for an ordinary token of another type, so a dotted pair split before its backslash or before its closing paren is a syntax error instead of a request for more input")
+			}
+		}
+		if nPeek < 6 {
+			c.undecided("C13-PEEKEND", "Parser", "direct look-aheads", token.NoPos, fmt.Sprintf("only %d direct look-aheads found in the parser", nPeek))
+		}
+	}
+
 	// ---- C13-OPERAND: a nested expression is read only by a routine that runs the more-input protocol
 	// itself. ParseExpression answers a dry token stream with the end marker; a caller that has not
 	// first waited for a token (the prefix operators % ^ ~ ~@ used to) wraps that marker as if it
@@ -1216,4 +1244,92 @@ func resultComparedWithGlobal(call ssa.Value, global string) bool {
 		}
 	}
 	return false
+}
+
+func atDepthZeroSite(site ssa.CallInstruction) bool {
+	return guardedBy(site.Block(), func(cond ssa.Value) (bool, bool) {
+		bo, ok := cond.(*ssa.BinOp)
+		if !ok || (bo.Op != token.EQL && bo.Op != token.NEQ) {
+			return false, false
+		}
+		p, isParam := bo.X.(*ssa.Parameter)
+		k, isConst := constIntOf(bo.Y)
+		if !isParam || !isConst || k != 0 || p.Name() != "depth" {
+			return false, false
+		}
+		return true, bo.Op == token.EQL
+	})
+}
+
+// tokenComparedWith: the Token returned by the call (first result) has its typ field compared with the constant k.
+func tokenComparedWith(call ssa.Value, typF *types.Var, k int64) bool {
+	seen := map[ssa.Value]bool{}
+	found := false
+	var walk func(v ssa.Value, depth int)
+	walk = func(v ssa.Value, depth int) {
+		if seen[v] || depth > 8 || found || v.Referrers() == nil {
+			return
+		}
+		seen[v] = true
+		for _, r := range *v.Referrers() {
+			switch x := r.(type) {
+			case *ssa.Extract:
+				if x.Index == 0 {
+					walk(x, depth+1)
+				}
+			case *ssa.Phi:
+				walk(x, depth+1)
+			case *ssa.Field:
+				if fField(x) == typF {
+					walk(x, depth+1)
+				}
+			case *ssa.FieldAddr:
+				if faField(x) == typF {
+					for _, r2 := range *x.Referrers() {
+						if ld, ok := r2.(*ssa.UnOp); ok && ld.Op == token.MUL {
+							walk(ld, depth+1)
+						}
+					}
+				}
+			case *ssa.Store:
+				if x.Val == v {
+					// spilled to a local (named result, captured variable): its loads and field reads
+					if al, ok := x.Addr.(*ssa.Alloc); ok {
+						for _, r2 := range *al.Referrers() {
+							switch y := r2.(type) {
+							case *ssa.UnOp:
+								if y.Op == token.MUL {
+									walk(y, depth+1)
+								}
+							case *ssa.FieldAddr:
+								if faField(y) == typF {
+									for _, r3 := range *y.Referrers() {
+										if ld, ok := r3.(*ssa.UnOp); ok && ld.Op == token.MUL {
+											walk(ld, depth+1)
+										}
+									}
+								}
+							}
+						}
+					}
+				}
+			case *ssa.BinOp:
+				// the comparison is made on the token of this look-ahead, not of an earlier one
+				// kept in the same variable: it comes after the call
+				if ci, ok := call.(ssa.Instruction); ok && !dominatesInstr(ci, x) {
+					continue
+				}
+				if x.Op == token.EQL || x.Op == token.NEQ {
+					if kv, ok := constIntOf(x.Y); ok && kv == k {
+						found = true
+					}
+					if kv, ok := constIntOf(x.X); ok && kv == k {
+						found = true
+					}
+				}
+			}
+		}
+	}
+	walk(call, 0)
+	return found
 }
